@@ -174,6 +174,25 @@ def handle (toks : List String) : String :=
           match ps.mapM (fun p => (Query.pos p).toA12? A1 A2 0 0 0 0) with
           | some l => pure (showRats (flatPairs l))
           | none => pure (err "assert")
+      | "q2avec" => done do
+          let (A1, r) ← takeV3 xs
+          let (A2, r) ← takeV3 r
+          let (B1, r) ← takeV3 r
+          let (B2, r) ← takeV3 r
+          let (m, r) ← takeNat r
+          let (rows, _) ← takeN (2 * m) r
+          match (toPairs rows).mapM (otherBasisToA12? A1 A2 B1 B2) with
+          | some l => pure (showRats (flatPairs l))
+          | none => pure (err "assert")
+      | "frame" => done do
+          let (M, r) ← takeM3 xs
+          let (Kv, r) ← takeM3 r
+          let (b, r) ← takeV3 r
+          let (T, _) ← takeM3 r
+          let K' := frameK M Kv
+          let T' := frameT M T
+          pure (showRats (K'.r0.toList ++ K'.r1.toList ++ K'.r2.toList ++ (frameB M b).toList
+            ++ T'.r0.toList ++ T'.r1.toList ++ T'.r2.toList))
       | "dens" => done do
           let (cd, r) ← takeBool xs
           let (n, r) ← takeNat r
